@@ -1,3 +1,4 @@
+import XPathV.Lemmas.Pull2Gen.NonVacuity
 import XPathV.Theorems.C04
 import XPathV.Theorems.NonVacuity.Common
 import XPathV.Theorems.NonVacuity.C02
